@@ -44,3 +44,16 @@ void c_epi(void) {
   rt_cover(r0 == 1 && r1 == 0, "thread 1 ran first");
   rt_cover(r0 == 1 && r1 == 1, "both stores seen");
 }
+
+/* ---- (b') per-width atomicity: two threads apply each read-modify-write flavour to one cell of width W */
+#ifdef WT
+WT CELL[2]; WT gx1, gx2;
+void w_t1(void) { WT o, n; do { o = uatomic_read(&CELL[0]); n = (WT)(o + 1); } while (uatomic_cmpxchg(&CELL[0], o, n) != o);
+  (void)uatomic_add_return(&CELL[0], 2); uatomic_add(&CELL[0], 4); uatomic_inc(&CELL[0]); uatomic_or(&CELL[1], 1); }
+void w_t2(void) { WT o, n; do { o = uatomic_read(&CELL[0]); n = (WT)(o + 8); } while (uatomic_cmpxchg(&CELL[0], o, n) != o);
+  (void)uatomic_sub_return(&CELL[0], 1); uatomic_sub(&CELL[0], 1); uatomic_dec(&CELL[0]); uatomic_or(&CELL[1], 2); uatomic_and(&CELL[1], (WT)~4); }
+void w_epi(void) {
+  rt_assert(CELL[0] == (WT)(1 + 2 + 4 + 1 + 8 - 1 - 1 - 1), "no read-modify-write on the cell was lost (this width)");
+  rt_assert((CELL[1] & 3) == 3, "or updates not lost (this width)");
+}
+#endif
